@@ -253,7 +253,47 @@ MCStorageOnly == {
   [k |-> "pathcap", addr |-> "0000000000000001", path |-> PathV("public", "bar_1"), t |-> <<RefInt>>],
   [k |-> "pathcap", addr |-> "0000000000000001", path |-> PathV("private", "p"), t |-> <<>>]}
 
+\* Dictionaries with several keys per hashable key kind, the key sets chosen across the boundaries where the encoded
+\* key changes length or sign (so that "shorter first" and "bytewise" orders of the encoded keys differ), presented
+\* in both orders, and nested in an optional, an array, a struct field, an event and another dictionary.
+IdxStr == <<"1", "2", "3", "4">>
+Rv(s) == [i \in 1..Len(s) |-> s[Len(s) + 1 - i]]
+KD(kt, keys) == Dict(DictT(kt, P("Int")), [i \in 1..Len(keys) |-> KV(keys[i], Num("Int", IdxStr[i]))])
+NumKeys(t, ss) == [i \in 1..Len(ss) |-> Num(t, ss[i])]
+KeySets == {
+  <<P("Int8"), NumKeys("Int8", <<"-1", "24">>)>>, <<P("Int8"), NumKeys("Int8", <<"-25", "23">>)>>,
+  <<P("Int16"), NumKeys("Int16", <<"-257", "255">>)>>, <<P("Int16"), NumKeys("Int16", <<"-1", "256", "24">>)>>,
+  <<P("Int32"), NumKeys("Int32", <<"0", "65536", "-1">>)>>, <<P("Int64"), NumKeys("Int64", <<"-1", "4294967296">>)>>,
+  <<P("Int"), NumKeys("Int", <<"-1", "24">>)>>, <<P("Int"), NumKeys("Int", <<"-1", "256">>)>>,
+  <<P("Int"), NumKeys("Int", <<"-18446744073709551616", "18446744073709551617">>)>>, <<P("Int"), NumKeys("Int", <<"-257", "255", "0">>)>>,
+  <<P("Int128"), NumKeys("Int128", <<"-1", "256">>)>>, <<P("Int256"), NumKeys("Int256", <<"-1", "18446744073709551616">>)>>,
+  <<P("UInt8"), NumKeys("UInt8", <<"23", "24", "255">>)>>, <<P("UInt64"), NumKeys("UInt64", <<"4294967296", "1">>)>>,
+  <<P("UInt"), NumKeys("UInt", <<"255", "256", "0">>)>>, <<P("Word16"), NumKeys("Word16", <<"255", "256">>)>>,
+  <<P("UInt128"), NumKeys("UInt128", <<"1", "18446744073709551616">>)>>,
+  <<P("Fix64"), <<FixSeq["Fix64"][4], FixSeq["Fix64"][5]>>>>, <<P("UFix64"), <<FixSeq["UFix64"][3], FixSeq["UFix64"][2]>>>>,
+  <<P("Fix128"), <<FixSeq["Fix128"][4], FixSeq["Fix128"][5]>>>>, <<P("UFix128"), <<FixSeq["UFix128"][3], FixSeq["UFix128"][2]>>>>,
+  <<P("Address"), <<Addr("0000000000000001"), Addr("ffffffffffffffff"), Addr("00000000000000ab")>>>>,
+  <<P("Path"), <<PathV("storage", "foo"), PathV("public", "p")>>>>, <<P("Path"), <<PathV("private", "p"), PathV("storage", "a"), PathV("public", "bar_1")>>>>,
+  <<P("StoragePath"), <<PathV("storage", "foo"), PathV("storage", "a")>>>>,
+  <<P("String"), <<Str("$s:b"), Str("$s:ab")>>>>, <<P("String"), <<Str("$s:long"), Str("$s:empty"), Str("$s:B"), Str("$s:uni")>>>>,
+  <<P("Character"), <<Chr("$c:a"), Chr("$c:flag"), Chr("$c:eacute")>>>>,
+  <<P("Bool"), <<BoolV(TRUE), BoolV(FALSE)>>>>,
+  <<TE, <<CompV(TE, <<Num("UInt8", "1")>>), CompV(TE, <<Num("UInt8", "0")>>)>>>>,
+  <<P("Type"), <<TypeV(VArr(P("String"))), TypeV(P("Int"))>>>>,
+  \* heterogeneous key sets under an abstract key type: every key carries its own inline type
+  <<P("HashableStruct"), <<Str("$s:b"), Num("Int", "1")>>>>,
+  <<P("HashableStruct"), <<Num("Int8", "-1"), Str("$s:ab"), BoolV(TRUE), Addr("0000000000000001")>>>>,
+  <<P("HashableStruct"), <<PathV("public", "p"), Num("UInt64", "24"), Chr("$c:a")>>>>,
+  <<P("AnyStruct"), <<Str("$s:a"), Num("Int", "-1")>>>>,
+  <<P("Integer"), <<Num("Int8", "-1"), Num("UInt16", "256"), Num("Int", "24")>>>>,
+  <<P("SignedNumber"), <<FixSeq["Fix64"][4], Num("Int", "1")>>>> }
+KeyDicts == UNION {{KD(ks[1], ks[2]), KD(ks[1], Rv(ks[2]))} : ks \in KeySets}
+NestK(d) == {Some(d), Arr(VArr(TypeOf(d)), <<d, d>>), CompV(TH, <<d>>), CompV(TEvH, <<d>>),
+             Dict(DictT(P("String"), TypeOf(d)), <<KV(Str("$s:b"), d), KV(Str("$s:ab"), d)>>),
+             Arr(VArr(P("AnyStruct")), <<Str("$s:a"), d>>)}
+KeyDictValues == KeyDicts \cup UNION {NestK(d) : d \in KeyDicts}
+
 ASSUME PrintT(ToJson([storageonly |-> MCStorageOnly]))
 
-MCUniverse == Leaves \cup TypeLeaves \cup L1 \cup L2 \cup SameNameValues
+MCUniverse == Leaves \cup TypeLeaves \cup L1 \cup L2 \cup SameNameValues \cup KeyDictValues
 =============================================================================
